@@ -16,7 +16,7 @@ META = {
     "bounds": {
         "quick": "every C03-quick structure of every defined identity; cut lengths: all if <= 24 cuts, else the last 8 bytes plus a seeded "
                  "sample of 16 cuts; truncated payload bytes all symbolic; free mode: every defined identity, payload lengths 2..14, counters 0..2 + one beyond",
-        "thorough": "C03-thorough structures, every cut length down to the identity header; free mode lengths 2..40"},
+        "thorough": "C03-thorough structures, every cut length if <= 96 cuts else the last 24 bytes plus 72 sampled cuts; free mode lengths 2..40"},
     "outside": "structures outside the C03 bound; cuts inside the identity header (C04)",
     "assumptions": ["structure fields that still lie inside the truncated payload keep the values of the complete message"],
 }
@@ -34,11 +34,12 @@ def jobs(tier, seed):
 
 def cuts_for(need, minlen, tier, rnd):
     allc = list(range(need - 1, minlen - 1, -1))
-    if tier != 'quick' or len(allc) <= 24:
+    cap, tailn, samp = (24, 8, 16) if tier == 'quick' else (96, 24, 72)
+    if len(allc) <= cap:
         return allc
-    last = allc[:8]
-    rest = allc[8:]
-    return last + sorted(rnd.sample(rest, min(16, len(rest))), reverse=True)
+    last = allc[:tailn]
+    rest = allc[tailn:]
+    return last + sorted(rnd.sample(rest, min(samp, len(rest))), reverse=True)
 
 
 def run_cut(ident, tier, seed, res):
